@@ -40,9 +40,12 @@ PLAN = {
                       "KERNEL model-queued-more-than-real", "KERNEL auto-record-unpredicted", "KERNEL auto-record-differs"],
                 soft=["MISMATCH twd", "MISMATCH tpath", "MISMATCH twd-flags"]),
     "C19": dict(families=["recurse"],
+                # the kernel's own watch set (fdinfo marks, the IN_IGNORED it queues when the library removes a watch) is an
+                # external observable: a directory that must still be watched and is not, or the reverse, is the failure itself
                 hard=["MISMATCH out-missing", "MISMATCH out-extra", "MISMATCH out-name", "MISMATCH out-errors", "MISMATCH list", "MISMATCH api-remove",
-                      "MISMATCH api-add", "MISMATCH out-order", "MISMATCH out-from", "SPEC C02-name-not-watched"],
-                soft=["MISMATCH twd", "MISMATCH tpath", "MISMATCH marks"]),
+                      "MISMATCH api-add", "MISMATCH out-order", "MISMATCH out-from", "SPEC C02-name-not-watched",
+                      "MISMATCH marks", "KERNEL auto-record-unpredicted", "KERNEL model-queued-more-than-real"],
+                soft=["MISMATCH twd", "MISMATCH tpath"]),
 }
 
 EXTRA_CONC = {"C03": "absorb,buffers", "C10": "pending,readerr", "C19": "react"}
